@@ -566,7 +566,12 @@ class RoiSubsetStateNd(SubsetState):
         if not self.roi.defined():
             return np.zeros(raw_comps[0].shape, dtype=bool)
 
-        if raw_comps[0].ndim == data.ndim and all([att in data.pixel_component_ids for att in self._atts]):
+        # With index arrays in the view, the result can have the dimensionality
+        # of the data without being a sub-array of it
+        fancy_view = (isinstance(view, np.ndarray) or
+                      (isinstance(view, (tuple, list)) and any(isinstance(v, (np.ndarray, list)) for v in view)))
+
+        if not fancy_view and raw_comps[0].ndim == data.ndim and all([att in data.pixel_component_ids for att in self._atts]):
             # This is a special case - the ROI is defined in pixel space, so we
             # can apply it to a single slice and then broadcast it to all other
             # dimensions. We start off by extracting a slice which takes only
